@@ -18,6 +18,7 @@ Template directives (all are `//@...` comment lines inside an ordinary .rs file)
       //@prelude               following plain lines (ghost code) are placed at the start of the body
       //@subst <old> => <new>  (R12) replace the unique occurrence of <old>; blanks match any whitespace,
                                `...` matches any bracket-balanced text
+      //@epilogue              following plain lines (ghost code) are placed at the end of the body (unit-returning fns)
       //@assume                keep the contract, replace the body by an external_body stub
   //@arms <src> <Impl>::<name> <scrutinee>          split `match <scrutinee> {..}` into one fn per arm
       (same sub-directives; //@contract is shared by all arms and by the generated dispatcher)
@@ -266,6 +267,8 @@ class Expander:
             text = '\n'.join(ls)
         if spec.prelude:
             text = '\n' + '\n'.join(spec.prelude) + '\n' + text
+        if spec.epilogue:
+            text = text.rstrip() + '\n' + '\n'.join(spec.epilogue) + '\n'
         if spec.loops:
             b = rsx.Body(text)
             loops = b.loops()
